@@ -184,6 +184,24 @@ def runOps (ops : Array Json) (fnMax objMax : Nat) : Except String (Array Json) 
     out := out.push (ob.setObjVal! "calls" (toJson (s.lz.w.log.drop log0)))
   return out
 
+/-- calls in flight: `{"steps":[{"s":"start","id":i,"prog":P} | {"s":"finish","id":i} | {"s":"shutdown"}]}`;
+answers what each client of a finished call sees, in the order the handlers finish -/
+def runSteps (steps : Array Json) (fnMax objMax : Nat) : Except String Json := do
+  let mut sys : Sys := { srv := Srv.init fnMax objMax }
+  for st in steps do
+    let k ← Driver.getStr st "s"
+    match k with
+    | "start" =>
+      match ← parseProg #[] (← st.getObjVal? "prog") with
+      | none => throw "span programs take no handles"
+      | some p => sys := sys.step (.start (← Driver.getNat st "id") (getRequest p))
+    | "finish" => sys := sys.step (.finish (← Driver.getNat st "id"))
+    | "shutdown" => sys := sys.step .shutdown
+    | _ => throw s!"bad step {k}"
+  let out := sys.replies.map fun p =>
+    (outJson (decode {} p.2)).setObjVal! "id" (toJson p.1)
+  return Json.mkObj [("replies", Json.arr out.toArray)]
+
 /-- `{"model":"remote","fn_max":..,"obj_max":..,"threads":[[op,...],...]}`: every thread's ops are run
 on a server of their own state slice — by `C14_concurrent` requests on distinct objects commute, so
 for thread-disjoint programs the per-thread observations do not depend on the interleaving.  A plain
@@ -191,6 +209,8 @@ sequential case has one thread. -/
 def handle (j : Json) : Except String Json := do
   let fnMax ← Driver.getNat j "fn_max"
   let objMax ← Driver.getNat j "obj_max"
+  if let .ok steps := Driver.getArr j "steps" then
+    return ← runSteps steps fnMax objMax
   let threads ← Driver.getArr j "threads"
   let mut outs : Array Json := #[]
   for t in threads do
